@@ -1,4 +1,5 @@
 import VelaVerif.Lemmas.Scaling
+import VelaVerif.Lemmas.ScalingRat
 /-!
 # C09 — quantised multipliers reproduce the real scale to reference precision
 
@@ -111,6 +112,41 @@ theorem quantise_meets_spec (m : Nat) (e : Int) (h1 : 2 ^ 52 ≤ m) (h2 : m < 2 
     rw [if_neg hin]
     decide
 
+/-- The same clauses read over the rationals (no scaling conventions left): for every positive
+    double `x = m·2^e` with `2^-33 ≤ x < 2^31`, `quantise_scale` returns `(q, s)` with
+    `|q·2^-s − x| ≤ 2^-31·x`, `q·2^-s` equal to the TFLite reference value `q_T·2^(s_T−31)`, and
+    fields in range; for every other positive double it returns the zero multiplier. -/
+theorem quantise_meets_spec_rat (m : Nat) (e : Int) (h1 : 2 ^ 52 ≤ m) (h2 : m < 2 ^ 53) :
+    ∃ q s : Int, quantiseScale (.fin false m e) = .ok (q, s) ∧
+      (((2:ℚ) ^ (-33 : Int) ≤ (m:ℚ) * (2:ℚ) ^ e ∧ (m:ℚ) * (2:ℚ) ^ e < (2:ℚ) ^ (31 : Int)) →
+        InRange q s ∧
+        |(q:ℚ) * (2:ℚ) ^ (-s) - (m:ℚ) * (2:ℚ) ^ e| * 2 ^ 31 ≤ (m:ℚ) * (2:ℚ) ^ e ∧
+        (q:ℚ) * (2:ℚ) ^ (-s) = ((tfliteQuantizeMultiplierNoFlush m e).1 : ℚ) *
+            (2:ℚ) ^ ((tfliteQuantizeMultiplierNoFlush m e).2 - 31)) ∧
+      (¬ ((2:ℚ) ^ (-33 : Int) ≤ (m:ℚ) * (2:ℚ) ^ e ∧ (m:ℚ) * (2:ℚ) ^ e < (2:ℚ) ^ (31 : Int)) → q = 0) := by
+  obtain ⟨q, s, hq, hok⟩ := quantise_meets_spec m e h1 h2
+  refine ⟨q, s, hq, ?_, ?_⟩
+  all_goals
+    have hr : HwRange m e ↔
+        ((2:ℚ) ^ (-33 : Int) ≤ (m:ℚ) * (2:ℚ) ^ e ∧ (m:ℚ) * (2:ℚ) ^ e < (2:ℚ) ^ (31 : Int)) := by
+      unfold HwRange
+      rw [dyLe_iff_rat, dyLt_iff_rat]
+      simp
+  · intro hin
+    unfold QuantOk at hok
+    rw [if_pos (hr.2 hin)] at hok
+    obtain ⟨a, b, c⟩ := hok
+    refine ⟨a, ?_, ?_⟩
+    · have := (relErr_iff_rat q (-s) m e 1 (2 ^ 31)).1 b
+      norm_num at this ⊢
+      exact this
+    · have := (dyEq_iff_rat q (-s) _ _).1 c
+      simpa using this
+  · intro hout
+    unfold QuantOk at hok
+    rw [if_neg (fun h => hout (hr.1 h))] at hok
+    exact hok.1
+
 /-- Negative scales give the mirrored multiplier with the same shift (`round_away_zero` is odd). -/
 theorem quantise_negative_mirror (m : Nat) (e : Int) (h0 : 0 < m) (h2 : m < 2 ^ 53) :
     ∃ q s, quantiseScale (.fin false m e) = .ok (q, s) ∧ quantiseScale (.fin true m e) = .ok (-q, s) := by
@@ -166,6 +202,17 @@ theorem reduced_rel_err (m : Nat) (e : Int) (h1 : 2 ^ 52 ≤ m) (h2 : m < 2 ^ 53
     split <;> omega
   · have := sigQ31_range m h1 h2
     split <;> omega
+
+/-- Reduced form over the rationals: under the code's guard, `|q16·2^-s16 − x| ≤ 2^-14·x`. -/
+theorem reduced_rel_err_rat (m : Nat) (e : Int) (h1 : 2 ^ 52 ≤ m) (h2 : m < 2 ^ 53)
+    (hin : HwRange m e) :
+    ∃ q16 s16 : Int, reducedQuantiseScale (.fin false m e) = .ok (q16, s16) ∧ q16 ≤ 32767 ∧
+      |(q16:ℚ) * (2:ℚ) ^ (-s16) - (m:ℚ) * (2:ℚ) ^ e| * 2 ^ 14 ≤ (m:ℚ) * (2:ℚ) ^ e := by
+  obtain ⟨q16, hq, _, hhi, hrel⟩ := reduced_rel_err m e h1 h2 hin
+  refine ⟨q16, _, hq, hhi, ?_⟩
+  have := (relErr_iff_rat q16 _ m e 1 (2 ^ 14)).1 hrel
+  norm_num at this ⊢
+  exact this
 
 /-- The reduced shift is a valid field exactly for `x < 2^15`; for `2^15 ≤ x < 2^31` it is negative
     (the code re-tests `shift`, not `reduced_shift`). -/
@@ -488,6 +535,57 @@ theorem advanced_fields (A : Arith) (s1 s2 so : FVal) (bd : Int) (r : AdvancedRe
       injection h with h
       subst h
       exact ⟨quantise_fields_always _ _ _ hq, (simplified_fields A _ _ so _ sr hs).1⟩
+
+/-! ## What reaches the registers (`register_command_stream_generator.py`) -/
+
+/-- Average pool with equal IFM/OFM scales given as Python floats / `np.float64` (exact conversion
+    of the integer scale, `x · 1.0 = x`): `NPU_SET_OFM_SCALE` carries exactly the pair of
+    `quantise_pooling_scale`, nothing is masked away; `pooling_divides` applies to the register. -/
+theorem pool_register_exact (A : Arith) (k : FKind) (n : Int) (hn : 1 ≤ n) (hn16 : n ≤ 65536)
+    (hcast : ∀ x, A.cast k x = x) (hmul : ∀ x, A.mul k x (.fin false 1 0) = x) :
+    ∃ S sh, poolRegistersEqualScales A k n = .ok (S, sh) ∧ quantisePoolingScale n 0 = .ok (S, sh) := by
+  obtain ⟨S, sh, hq, hf, hlo, hhi⟩ := pooling_fields n hn hn16
+  refine ⟨S, sh, ?_, hq⟩
+  unfold PoolFields at hf
+  unfold poolRegistersEqualScales
+  rw [hq]
+  simp only []
+  rw [if_neg (by omega), hcast, hmul]
+  have hS : ((S.toNat : Nat) : Int) = S := by omega
+  simp only [Dbl.truncInt, regOffset, regParam]
+  simp only [ge_iff_le, Int.le_refl, if_true, Int.toNat_zero, Nat.pow_zero, Nat.mul_one,
+    Bool.false_eq_true, if_false, hS]
+  have h1 : S % 2 ^ 32 = S := Int.emod_eq_of_lt hf.1 hf.2.1
+  have h2 : sh % 2 ^ 16 = sh := Int.emod_eq_of_lt (by omega) (by omega)
+  rw [h1, h2]
+
+/-- With `np.float32` scales (as read from a model) NumPy ≥ 2 converts the integer scale to
+    float32: for the 2 × 2 window `2^31 + 1` becomes `2^31`, and the register pair no longer
+    reproduces the reference at the tie `acc = −2` (0 instead of −1).  Recorded finding
+    `avgpool-ofm-scale-rounded-to-float32-numpy2`. -/
+theorem pool_register_float32_witness :
+    quantisePoolingScale 4 0 = .ok (2 ^ 31 + 1, 33) ∧ rneNat 24 (2 ^ 31 + 1) = 2 ^ 31 ∧
+    PoolOk (2 ^ 31 + 1) 33 4 (-2) ∧ ¬ PoolOk (2 ^ 31) 33 4 (-2) ∧
+    hwRound (-2 * 2 ^ 31) 33 = 0 ∧ refAvg (-2) 4 = -1 := by decide
+
+/-- Elementwise MUL: `NPU_SET_OFM_SCALE` carries the pair of `elementwise_mul_scale` unmasked
+    (for a non-negative multiplier, i.e. a non-negative rounded quotient). -/
+theorem mul_registers_no_wrap (A : Arith) (s1 s2 so : FVal) (r : EwRegs)
+    (h : ewRegistersMul A s1 s2 so = .ok r) :
+    ∃ q s, elementwiseMulScale A s1 s2 so = .ok (q, s) ∧ r.ofmShift = s ∧ (0 ≤ q → r.ofmScale = q) := by
+  unfold ewRegistersMul at h
+  split at h
+  · cases h
+  · rename_i q s hq
+    injection h with h
+    subst h
+    have hf := mul_scale_fields A s1 s2 so q s hq
+    refine ⟨q, s, hq, ?_, ?_⟩
+    · simp only [regParam]
+      exact Int.emod_eq_of_lt (by omega) (by omega)
+    · intro hq0
+      simp only [regOffset]
+      exact Int.emod_eq_of_lt hq0 (by omega)
 
 /-! ## Non-vacuity: concrete instances meet the hypotheses -/
 
